@@ -180,6 +180,20 @@ fn name_padwing_4() {
     }
 }
 
+// name_padwing_4 over all 2^32 strings needs > 45 GB here.  What is proved instead: every 4-byte string that is not "PC" followed by
+// two ASCII digits is rejected (the reject side never reaches the 64-row board table).  The 100 remaining strings are enumerated one
+// by one by the native check c08_names (an exhaustive enumeration of that side; under CBMC even the concrete 100 x 64 string
+// comparisons did not finish in 25 min).
+#[kani::proof]
+#[kani::unwind(8)]
+fn name_padwing_reject() {
+    let b: [u8; 4] = kani::any();
+    kani::assume(!(b[0] == b'P' && b[1] == b'C' && b[2].is_ascii_digit() && b[3].is_ascii_digit()));
+    if let Ok(name) = core::str::from_utf8(&b) {
+        assert!(crate::midas::PadwingBankName::try_from(name).is_err());
+    }
+}
+
 #[kani::proof]
 #[kani::unwind(12)]
 fn name_fixed_4() {
